@@ -238,6 +238,8 @@ impl World {
 
     /// Hybrid of [`spawn_column_batch`](Self::spawn_column_batch) and [`spawn_at`](Self::spawn_at)
     pub fn spawn_column_batch_at(&mut self, handles: &[Entity], batch: ColumnBatch) {
+        self.flush();
+
         let archetype = batch.0;
         assert_eq!(
             handles.len(),
